@@ -51,6 +51,7 @@ def obligations(tier):
             n = len(tags)
             obs.append(S.SOb('C01.opt[%s,n=%d,tags=1:%s]' % (g['name'], n, tags), g, n, S.one_tag(n, g['T'], tags), pruning=1, penalty='sym'))
     obs.append(S.SOb('C01.opt[G7,n=3,tags=1,penalty=sym]', S.G7(False), 3, S.one_tag(3, 3), pruning=1, penalty='sym'))
+    obs.append(S.SOb('C01.opt[G7x,n=3,tags=1,penalty=sym]', S.G7x(False), 3, S.one_tag(3, 3), pruning=1, penalty='sym'))
     gp = S.real_grammar('en_punct')
     for tags in ([[1, 1, 0]] if q else [[1, 1, 0], [1, 2, 0], [0, 1, 2]]):
         obs.append(S.SOb('C01.opt[G_en_punct,n=3,tags=1:%s]' % tags, gp, 3, S.one_tag(3, gp['T'], tags), pruning=1, penalty='sym'))
